@@ -32,6 +32,7 @@ MODES = ['everyone', 'friends', 'users']
 F_SEARCHES, F_SHARES, F_UPLOADS = 4, 8, 32
 FLAG_CHOICES = [32, 32, 32, 4, 4, 8, 36, 40, 12, 44, 63, 1, 16, 3]
 TASK_METHODS = ['initialize', 'start_transferring', 'complete', 'fail', 'pause']
+CONFIG_OPS = ('friends', 'blocked', 'share', 'unshare', 'mode')
 PATH_VARIANTS = ['exact', 'exact', 'exact', 'exact', 'upper', 'lower', 'dblsep', 'fwd', 'trail', 'lead', 'noat',
                  'unknown', 'dironly']
 
@@ -198,38 +199,46 @@ def _gen_case(rng: random.Random) -> dict:
             var = rng.choice(PATH_VARIANTS)
         return {'d': d, 'f': rel, 'var': var}
 
+    def gen_change():
+        nonlocal friends, blocked
+        k = rng.random()
+        if k < 0.25:
+            new = _gen_users(rng)
+            if new == friends:
+                new = [u for u in range(3) if u not in friends][:2]
+            friends = new
+            return ['friends', friends]
+        if k < 0.5:
+            blocked = _gen_blocked(rng, blocked)
+            return ['blocked', blocked]
+        if k < 0.7 and shared:
+            d = rng.choice(sorted(shared))
+            m, us = _gen_mode(rng)
+            shared[d] = (m, us)
+            return ['mode', d, m, us]
+        if k < 0.85 and shared:
+            d = rng.choice(sorted(shared))
+            del shared[d]
+            return ['unshare', d]
+        d = rng.choice(all_dirs)
+        m, us = _gen_mode(rng)
+        if d not in shared:
+            shared[d] = (m, us)
+        return ['share', d, m, us]
+
     specs_used: list[tuple[int, dict]] = []
     n = rng.choice([6, 10, 14, 18, 24])
     for _ in range(n):
         r = rng.random()
         if r < 0.22 and nchanges < max_changes:
             nchanges += 1
-            k = rng.random()
-            if k < 0.25:
-                new = _gen_users(rng)
-                if new == friends:
-                    new = [u for u in range(3) if u not in friends][:2]
-                friends = new
-                ops.append(['friends', friends])
-            elif k < 0.5:
-                blocked = _gen_blocked(rng, blocked)
-                ops.append(['blocked', blocked])
-            elif k < 0.7 and shared:
-                d = rng.choice(sorted(shared))
-                m, us = _gen_mode(rng)
-                ops.append(['mode', d, m, us])
-                shared[d] = (m, us)
-            elif k < 0.85 and shared:
-                d = rng.choice(sorted(shared))
-                ops.append(['unshare', d])
-                del shared[d]
-            else:
-                d = rng.choice(all_dirs)
-                m, us = _gen_mode(rng)
-                ops.append(['share', d, m, us])
-                if d not in shared:
-                    shared[d] = (m, us)
-            if rng.random() < 0.6:
+            ops.append(gen_change())
+            x = rng.random()
+            if x < 0.3 and nchanges < max_changes:
+                # a second change arrives while the cycle the first one asked for is suspended at an await
+                nchanges += 1
+                ops.append(['cycle*', rng.choice(['track', 'track', 'state']), [gen_change()]])
+            elif x < 0.7:
                 ops.append(['cycle'])
         elif r < 0.3:
             ops.append(['phrases', _gen_phrases(rng, files) if rng.random() < 0.85 else []])
@@ -337,9 +346,14 @@ def _gen_states_case(rng: random.Random) -> dict:
     ]
     for _ in range(rng.choice([1, 2, 3])):
         a, b = rng.choice(changes)
-        if rng.random() < 0.3:
+        x = rng.random()
+        if x < 0.2:
             a2, _b2 = rng.choice(changes)
             ops += [a, a2, ['cycle']]
+        elif x < 0.55:
+            # `a` asks for a cycle; while that cycle is suspended at an await, `a2` (and sometimes more) arrive
+            inner = [rng.choice(changes)[rng.choice([0, 0, 1])] for _ in range(rng.choice([1, 1, 2]))]
+            ops += [a, ['cycle*', rng.choice(['track', 'state']), inner]]
         else:
             ops += [a, ['cycle']]
         if k and rng.random() < 0.4:
@@ -348,7 +362,7 @@ def _gen_states_case(rng: random.Random) -> dict:
                                    ['queue', plan[0][0], {'d': plan[0][1], 'f': [x for x in files if x.startswith(plan[0][1] + '/')][0][len(plan[0][1]) + 1:], 'var': 'exact'}]]))
         if rng.random() < 0.3:
             ops.append(search())
-        ops += [b, ['cycle']]
+        ops += [b, ['cycle*', 'track', []] if rng.random() < 0.15 else ['cycle']]
     return {'cap': rng.choice([100, 100, 2, 1]), 'files': files, 'ops': ops}
 
 
@@ -402,11 +416,25 @@ class _Users:
             self.users[username] = self._User(name=username)
         return self.users[username]
 
+    gate: Optional[asyncio.Future] = None      # armed by a `cycle*` op: manage_user_tracking suspends here
+
     async def track_user(self, username, flag):
-        pass
+        if self.gate is not None and not self.gate.done():
+            await self.gate
 
     async def untrack_user(self, username, flag):
-        pass
+        if self.gate is not None and not self.gate.done():
+            await self.gate
+
+
+class _StateGate:
+    """A TransferStateListener: when armed, a state transition made by the cycle (the abort / queue tasks gathered by
+    manage_shares_changed) suspends inside `Transfer.transition`."""
+    gate: Optional[asyncio.Future] = None
+
+    async def on_transfer_state_changed(self, transfer, old, new):
+        if self.gate is not None and not self.gate.done():
+            await self.gate
 
 
 async def _drain():
@@ -473,8 +501,9 @@ def _run_impl(case: dict) -> dict:
             for k in range(1, len(parts)):
                 names.add('/'.join(parts[:k]))
         for op in case['ops']:
-            if op[0] in ('share', 'unshare', 'mode'):
-                names.add(op[1])
+            for o2 in ([op] + list(op[2]) if op[0] == 'cycle*' else [op]):
+                if o2[0] in ('share', 'unshare', 'mode'):
+                    names.add(o2[1])
             if op[0] in ('dir', 'queue', 'treq'):
                 names.add(op[2]['d'])
         alias = {d: shares.generate_alias(os.path.normpath(os.path.abspath(ap(d)))) for d in sorted(names)}
@@ -512,7 +541,7 @@ def _run_impl(case: dict) -> dict:
         def listing(dds):
             return sorted([dd.name, sorted(fd.filename for fd in dd.files)] for dd in dds)
 
-        for op in case['ops']:
+        def config_op(op):
             kind = op[0]
             if kind == 'friends':
                 new = {USERS[u] for u in op[1]}
@@ -520,8 +549,8 @@ def _run_impl(case: dict) -> dict:
                 settings.users.friends = set(new)
                 if new != old:
                     run(bus.emit(FriendListChangedEvent(added=new - old, removed=old - new)))
-                obs.append({'changed': new != old, 'flag': flag()})
-            elif kind == 'blocked':
+                return {'changed': new != old, 'flag': flag()}
+            if kind == 'blocked':
                 new = {USERS[int(u)]: BlockingFlag(b) for u, b in op[1].items()}
                 old = dict(settings.users.blocked)
                 settings.users.blocked = dict(new)
@@ -529,8 +558,8 @@ def _run_impl(case: dict) -> dict:
                     changes = {u: (old.get(u, BlockingFlag.NONE), new.get(u, BlockingFlag.NONE))
                                for u in set(old) | set(new) if old.get(u) != new.get(u)}
                     run(bus.emit(BlockListChangedEvent(changes=changes)))
-                obs.append({'changed': new != old, 'flag': flag()})
-            elif kind in ('share', 'unshare', 'mode'):
+                return {'changed': new != old, 'flag': flag()}
+            if kind in ('share', 'unshare', 'mode'):
                 try:
                     if kind == 'share':
                         d = shares.add_shared_directory(ap(op[1]), share_mode=DirectoryShareMode(op[2]),
@@ -545,7 +574,58 @@ def _run_impl(case: dict) -> dict:
                     res = 'ok'
                 except SharedDirectoryError:
                     res = 'already-shared' if kind == 'share' else 'not-shared'
-                obs.append({'res': res, 'flag': flag()})
+                return {'res': res, 'flag': flag()}
+            raise ValueError(f'not a configuration op: {op!r}')
+
+        state_gate = _StateGate()
+
+        def attach_gate():
+            for t in xfer.transfers:
+                if state_gate not in t.state_listeners:
+                    t.state_listeners.append(state_gate)
+
+        for op in case['ops']:
+            kind = op[0]
+            if kind in CONFIG_OPS:
+                obs.append(config_op(op))
+            elif kind == 'cycle*':
+                # one management cycle SUSPENDED at a real await of the job (op[1] = 'track': the user-tracking calls
+                # of manage_user_tracking; 'state': inside a state transition gathered by manage_shares_changed), the
+                # configuration ops op[2] applied during the suspension, the gate released, then cycles until idle
+                prev = uploads()
+                had_flag = flag()
+                ran = not xfer._management_queue.empty()
+                task = None
+                suspended = False
+                if ran:
+                    gate = loop.create_future()
+                    if op[1] == 'track':
+                        users.gate = gate
+                    elif op[1] == 'state':
+                        attach_gate()
+                        state_gate.gate = gate
+                    else:
+                        raise ValueError(op)
+                    task = loop.create_task(xfer._management_job())
+                    run(_drain())
+                    suspended = not task.done()
+                inner = [config_op(o2) for o2 in op[2]]
+                if ran:
+                    if not gate.done():
+                        gate.set_result(None)
+                    users.gate = None
+                    state_gate.gate = None
+                    run(task)
+                    run(_drain())
+                mid = uploads()
+                extra = 0
+                while not xfer._management_queue.empty() and extra < 8:
+                    run(xfer._management_job())
+                    run(_drain())
+                    extra += 1
+                obs.append({'ran': ran, 'had_flag': had_flag, 'suspended': suspended, 'inner': inner, 'before': prev,
+                            'mid': mid, 'uploads': uploads(), 'flag': flag(), 'extra': extra,
+                            'idle': xfer._management_queue.empty()})
             elif kind == 'phrases':
                 deliver(M.ExcludedSearchPhrases.Response(list(op[1])), None)
                 obs.append({})
@@ -710,32 +790,50 @@ def _model_lines(case: dict, alias: dict) -> tuple[list[str], list[int]]:
             return 'users:' + (','.join(str(u) for u in us) if us else '-')
         return m
 
-    for op in case['ops']:
+    def config_line(op) -> Optional[str]:
+        nonlocal friends, blocked
         k = op[0]
         if k == 'friends':
             if set(op[1]) == friends:
-                where.append(-1)
-                continue
+                return None
             friends = set(op[1])
-            where.append(len(lines))
-            lines.append('friends ' + (','.join(str(u) for u in sorted(friends)) if friends else '-'))
-        elif k == 'blocked':
+            return 'friends ' + (','.join(str(u) for u in sorted(friends)) if friends else '-')
+        if k == 'blocked':
             new = {int(u): int(b) for u, b in op[1].items()}
             if new == blocked:
-                where.append(-1)
-                continue
+                return None
             blocked = new
-            where.append(len(lines))
-            lines.append('blocked ' + (','.join(f'{u}:{b}' for u, b in sorted(blocked.items())) if blocked else '-'))
-        elif k == 'share':
-            where.append(len(lines))
-            lines.append(f'share {_enc_path(op[1])} {_cps(alias[op[1]])} {mode(op[2], op[3])} {files}')
-        elif k == 'unshare':
-            where.append(len(lines))
-            lines.append(f'unshare {_enc_path(op[1])}')
-        elif k == 'mode':
-            where.append(len(lines))
-            lines.append(f'mode {_enc_path(op[1])} {mode(op[2], op[3])}')
+            return 'blocked ' + (','.join(f'{u}:{b}' for u, b in sorted(blocked.items())) if blocked else '-')
+        if k == 'share':
+            return f'share {_enc_path(op[1])} {_cps(alias[op[1]])} {mode(op[2], op[3])} {files}'
+        if k == 'unshare':
+            return f'unshare {_enc_path(op[1])}'
+        if k == 'mode':
+            return f'mode {_enc_path(op[1])} {mode(op[2], op[3])}'
+        raise ValueError(op)
+
+    for op in case['ops']:
+        k = op[0]
+        if k in CONFIG_OPS:
+            ln = config_line(op)
+            if ln is None:
+                where.append(-1)
+            else:
+                where.append(len(lines))
+                lines.append(ln)
+        elif k == 'cycle*':
+            # the suspended job = the model's atomic `cycle` (flags snapshot + clear, manage_shares_changed) — the ops
+            # applied during the suspension follow it and set the flag again — then the cycles run until idle
+            w = {'first': len(lines), 'inner': []}
+            lines.append('cycle')
+            for o2 in op[2]:
+                ln = config_line(o2)
+                w['inner'].append(-1 if ln is None else len(lines))
+                if ln is not None:
+                    lines.append(ln)
+            w['last'] = len(lines)
+            lines.append('cycle')
+            where.append(w)
         elif k == 'phrases':
             where.append(len(lines))
             lines.append('phrases ' + (';'.join(_cps(p) if p else '_' for p in op[1]) if op[1] else '-'))
@@ -793,6 +891,23 @@ def _compare(case: dict, impl: dict, out: list[str], where: list[int]):
         if o is None:
             return (i, 'missing impl observation', None)
         k = op[0]
+        if k == 'cycle*':
+            first, last = out[w['first']], out[w['last']]
+            if not o['idle']:
+                return (i, 'management queue not idle after 8 more cycles', 'idle')
+            mid = _show_uploads({'uploads': o['mid'], 'flag': False}).split('|', 1)[1]
+            if mid != first.split('|', 1)[1]:
+                return (i, 'after the suspended cycle: ' + mid, first)
+            for o2, w2, ob2 in zip(op[2], w['inner'], o['inner']):
+                if w2 < 0:
+                    if ob2.get('changed'):
+                        return (i, 'settings changed', 'harness thought not')
+                elif o2[0] in ('share', 'unshare', 'mode') and ob2['res'] != out[w2]:
+                    return (i, ob2['res'], out[w2])
+            s_ = _show_uploads(o)
+            if s_ != last:
+                return (i, 'settled: ' + s_, last)
+            continue
         if w < 0:
             if o.get('changed'):
                 return (i, 'settings changed', 'harness thought not')
@@ -945,6 +1060,59 @@ def _monitor(case: dict, impl: dict) -> list[Violation]:
     def uname(u):
         return USERS[u]
 
+    def apply_truth(op, o) -> bool:
+        """book-keeping of one configuration op; True when it changed something"""
+        k = op[0]
+        if k == 'friends':
+            ch = set(op[1]) != t.friends
+            t.friends = set(op[1])
+            return ch
+        if k == 'blocked':
+            new = {int(u): int(b) for u, b in op[1].items()}
+            ch = new != t.blocked
+            t.blocked = new
+            return ch
+        if o['res'] != 'ok':
+            return False
+        if k == 'unshare':
+            t.shared.pop(op[1], None)
+        else:
+            t.shared[op[1]] = (op[2], list(op[3]))
+        return True
+
+    def judge(tag, o):
+        """clause (4) at a settled point: `o['before']` -> `o['uploads']` against the configuration now"""
+        before = {(a, p): (st, r) for a, p, st, r in o['before']}
+        for a, p, st, r in o['uploads']:
+            bst, br = before.get((a, p), (None, None))
+            if bst in ('COMPLETE', 'FAILED', 'VIRGIN', None):
+                continue
+            u = USERS.index(a)
+            ok, why = t.permitted(u, p)
+            if bst == 'ABORTED' and br == 'Requested':
+                continue                                  # checked for every op
+            if not ok:
+                if st != 'ABORTED':
+                    vs.append(Violation('C08-not-aborted',
+                                        f'{tag}: after the management cycle the upload of {p!r} to {a} is {st} although: '
+                                        f'{why}', case, observed=[a, p, st, r], required=[a, p, 'ABORTED', why]))
+                elif r != why:
+                    vs.append(Violation('C08-wrong-abort-reason',
+                                        f'{tag}: the upload of {p!r} to {a} is ABORTED with reason {r!r}, expected {why!r}',
+                                        case, observed=[a, p, st, r], required=[a, p, 'ABORTED', why]))
+            elif bst == 'ABORTED':
+                if st != 'QUEUED':
+                    vs.append(Violation('C08-not-requeued',
+                                        f'{tag}: the upload of {p!r} to {a} was aborted for {br!r}, is permitted again '
+                                        f'and is {st} ({r!r}) after the management cycle', case,
+                                        observed=[a, p, st, r], required=[a, p, 'QUEUED', None]))
+            elif st == 'ABORTED':
+                vs.append(Violation('C08-aborted-although-permitted',
+                                    f'{tag}: the upload of {p!r} to {a} was {bst}, is permitted and was aborted ({r!r})',
+                                    case, observed=[a, p, st, r], required=[a, p, bst, None]))
+            if vs:
+                break
+
     for i, op in enumerate(case['ops']):
         if vs:
             break
@@ -963,26 +1131,8 @@ def _monitor(case: dict, impl: dict) -> list[Violation]:
                                         f'{after.get((u, p))}', case, observed=o['uploads'], required=[u, p, 'ABORTED', 'Requested']))
         if vs:
             break
-        if k == 'friends':
-            if set(op[1]) != t.friends:
-                changed_since_cycle = True
-            t.friends = set(op[1])
-        elif k == 'blocked':
-            new = {int(u): int(b) for u, b in op[1].items()}
-            if new != t.blocked:
-                changed_since_cycle = True
-            t.blocked = new
-        elif k == 'share':
-            if o['res'] == 'ok':
-                t.shared[op[1]] = (op[2], list(op[3]))
-                changed_since_cycle = True
-        elif k == 'unshare':
-            if o['res'] == 'ok':
-                t.shared.pop(op[1], None)
-                changed_since_cycle = True
-        elif k == 'mode':
-            if o['res'] == 'ok':
-                t.shared[op[1]] = (op[2], list(op[3]))
+        if k in CONFIG_OPS:
+            if apply_truth(op, o):
                 changed_since_cycle = True
         elif k == 'phrases':
             t.phrases = list(op[1])
@@ -1072,36 +1222,17 @@ def _monitor(case: dict, impl: dict) -> list[Violation]:
             # the settings / shares changed since the last cycle: every such change requests a cycle, so one ran now
             # (if none was requested the uploads are judged all the same — nothing will ever reconcile them)
             changed_since_cycle = False
-            before = {(a, p): (st, r) for a, p, st, r in o['before']}
-            for a, p, st, r in o['uploads']:
-                bst, br = before.get((a, p), (None, None))
-                if bst in ('COMPLETE', 'FAILED', 'VIRGIN', None):
-                    continue
-                u = USERS.index(a)
-                ok, why = t.permitted(u, p)
-                if bst == 'ABORTED' and br == 'Requested':
-                    continue                                  # checked above
-                if not ok:
-                    if st != 'ABORTED':
-                        vs.append(Violation('C08-not-aborted',
-                                            f'{tag}: after the management cycle the upload of {p!r} to {a} is {st} although: '
-                                            f'{why}', case, observed=[a, p, st, r], required=[a, p, 'ABORTED', why]))
-                    elif r != why:
-                        vs.append(Violation('C08-wrong-abort-reason',
-                                            f'{tag}: the upload of {p!r} to {a} is ABORTED with reason {r!r}, expected {why!r}',
-                                            case, observed=[a, p, st, r], required=[a, p, 'ABORTED', why]))
-                elif bst == 'ABORTED':
-                    if st != 'QUEUED':
-                        vs.append(Violation('C08-not-requeued',
-                                            f'{tag}: the upload of {p!r} to {a} was aborted for {br!r}, is permitted again '
-                                            f'and is {st} ({r!r}) after the management cycle', case,
-                                            observed=[a, p, st, r], required=[a, p, 'QUEUED', None]))
-                elif st == 'ABORTED':
-                    vs.append(Violation('C08-aborted-although-permitted',
-                                        f'{tag}: the upload of {p!r} to {a} was {bst}, is permitted and was aborted ({r!r})',
-                                        case, observed=[a, p, st, r], required=[a, p, bst, None]))
-                if vs:
-                    break
+            judge(tag, o)
+        elif k == 'cycle*':
+            # a cycle suspended at one of its awaits, configuration changes during the suspension, cycles until idle:
+            # at this settled point clause (4) holds against the configuration as it is NOW
+            for o2, ob2 in zip(op[2], o['inner']):
+                if apply_truth(o2, ob2):
+                    changed_since_cycle = True
+            if not changed_since_cycle:
+                continue
+            changed_since_cycle = False
+            judge(tag + (' [suspended]' if o['suspended'] else ''), o)
     return vs + dir_vs
 
 
@@ -1129,7 +1260,14 @@ W_RECONCILE = {'cap': 100, 'files': ['fr/x one.mp3', 'pub/y two.mp3'],
                        ['friends', []], ['blocked', {'1': 32}], ['cycle'],
                        ['queue', 0, {'d': 'fr', 'f': 'x one.mp3', 'var': 'exact'}],
                        ['friends', [0]], ['blocked', {}], ['cycle'], ['requeue', 1], ['cycle']]}
-WITNESSES = [W_PHRASE, W_RECONCILE]
+# a second change raised while the cycle asked for by the first one is suspended must still be seen by a cycle
+W_SUSPENDED = {'cap': 100, 'files': ['pub/a one.mp3', 'pub/b two.mp3'],
+               'ops': [['share', 'pub', 'everyone', []], ['cycle'],
+                       ['queue', 0, {'d': 'pub', 'f': 'a one.mp3', 'var': 'exact'}],
+                       ['queue', 1, {'d': 'pub', 'f': 'b two.mp3', 'var': 'exact'}], ['cycle'],
+                       ['blocked', {'0': 32}], ['cycle*', 'track', [['blocked', {'0': 32, '1': 32}]]],
+                       ['blocked', {'1': 32}], ['cycle*', 'state', [['blocked', {}]]]]}
+WITNESSES = [W_PHRASE, W_RECONCILE, W_SUSPENDED]
 
 
 class C08(Property):
@@ -1145,7 +1283,9 @@ class C08(Property):
             'PeerDirectoryContentsRequest, PeerTransferQueue / PeerTransferRequest for shared, locked, unshared, unknown '
             'paths and case / separator variants of them, repeated requests for existing uploads, state methods driving '
             'uploads through INITIALIZING / UPLOADING / PAUSED / COMPLETE / FAILED, user abort / re-queue, and management '
-            'cycles; all from VERIF_SEED. Non-trivial: an upload was created, a request was refused, and a management '
+            'cycles — also cycles SUSPENDED at a real await of the management job (the user-tracking calls of '
+            'manage_user_tracking, or a state transition gathered by manage_shares_changed) with further configuration '
+            'changes applied during the suspension, then cycles until the queue is idle; all from VERIF_SEED. Non-trivial: an upload was created, a request was refused, and a management '
             'cycle aborted or re-queued an upload; distinct = distinct canonical case')
     assumptions = [
         'alphabet as in C07 (str.lower one-to-one, self-checked); user names are non-empty and distinct; no alias '
@@ -1224,7 +1364,10 @@ class C08(Property):
                             res.count('request:refused:' + str(o['reply'][1]))
                         else:
                             res.count('request:silent')
-                    elif op[0] == 'cycle':
+                    elif op[0] in ('cycle', 'cycle*'):
+                        if op[0] == 'cycle*':
+                            res.count('cycle*:' + (('suspended-at-' + op[1]) if o['suspended'] else 'not-suspended')
+                                      + ('+change' if any(x.get('changed') or x.get('res') == 'ok' for x in o['inner']) else ''))
                         res.count('cycle:' + ('idle' if not o['ran'] else 'shares' if o['had_flag'] else 'transfers'))
                         b = {(u, p): (st, r) for u, p, st, r in o['before']}
                         for u, p, st, r in o['uploads']:
@@ -1250,7 +1393,7 @@ class C08(Property):
                     res.disagreements.append(Disagreement(c, x, y, f'op #{j} {c["ops"][j]}'))
             res.violations += _monitor(c, io)
             if len(res.samples) < 3 and 8 < len(c['ops']) < 22 and not exc and i >= len(WITNESSES):
-                res.samples.append({'case': c, 'impl': [{k: v for k, v in o.items() if k != 'before'} for o in io['obs']]})
+                res.samples.append({'case': c, 'impl': [{k: v for k, v in o.items() if k not in ('before', 'mid')} for o in io['obs']]})
         return res
 
     def replay(self, case):
